@@ -3,6 +3,7 @@ import os, sys
 import vlib, proglib, crashlib
 
 PROP_FILES = ["Properties_C03.v"]
+STATS_COMPARED = [0]
 
 
 def sig_offsets(sigs_line):
@@ -77,7 +78,8 @@ def check_image(meta, r, model_line, spec_script):
             exp = spec.get("rd %d 0 %d" % (sid, ln), "")
             et = exp.split()
             if len(et) < 4 or et[3] != t[3]:
-                probs.append(("signal %d: the %d samples read back differ from the submitted prefix" % (sid, ln), None))
+                probs.append(("signal %d: the %d samples read back differ from the submitted prefix" % (sid, ln),
+                              "crash-repair-omitted-blocks-unreadable" if st.get("may_omit") else None))
         # clean point: loses at most the buffered samples plus one block in flight
         if j == 0 and meta["defs_done"] and kind != "ctl":
             sub = meta["submitted"].get(sid, 0)
@@ -94,6 +96,7 @@ def check_image(meta, r, model_line, spec_script):
                 if len(t) < 4 or t[1] != "0" or int(t[3]) < 1:
                     continue
                 incr, count = int(op.split()[2]), int(t[3])
+                STATS_COMPARED[0] += 1
                 exp = spec.get("st %d 0 %d %d" % (sid, incr, count), "")
                 et = exp.split()
                 if len(et) < 2 + count or et[1] != "0":
@@ -108,7 +111,8 @@ def check_image(meta, r, model_line, spec_script):
                     tol = (2.0 ** -20) * max(1.0, abs(mn), abs(mx))
                     if vmin != float(mn) or vmax != float(mx) or abs(mean - sm / n_) > tol + abs(sm / n_) * 2.0 ** -20:
                         probs.append(("signal %d: statistics entry %d of (incr %d) after reopen: mean/min/max %r/%r/%r, submitted prefix has %r/%d/%d"
-                                      % (sid, k, incr, mean, vmin, vmax, sm / n_, mn, mx), "crash-repair-omitted-blocks-unreadable" if st.get("may_omit") else None))
+                                      % (sid, k, incr, mean, vmin, vmax, sm / n_, mn, mx),
+                                      "crash-repair-omitted-blocks-unreadable" if st.get("may_omit") else None))
                         break
         for kind_op, cls in (("an %d -1000000000000" % sid, "anno"), ("ut %d -1000000000000" % sid, "utc")):
             got, rest = proglib.parse_items(d1.get(kind_op, "")[len(kind_op.split()[0]):])
@@ -143,7 +147,7 @@ def run_images(ctx, nprog, per_program):
         marks = pr["marks"]          # marks[i] = log length after op i (ops incl. wopen at 0); last = after wclose
         last_def = max([i for i, o in enumerate(ops) if o.split()[0] in ("src", "sig")] + [0])
         defs_k = marks[last_def] if last_def < len(marks) else 0
-        for (k, j, kind) in crashlib.crash_points(rng, pr["entries"], ctx.tier, per_program):
+        for (k, j, kind) in crashlib.crash_points(rng, pr["entries"], ctx.tier, per_program, pr.get("tails")):
             submitted = {}
             for i, o in enumerate(ops):
                 if o.startswith("fsr ") and i < len(marks) and marks[i] <= k:
@@ -201,6 +205,7 @@ def run(ctx):
                               "implementation (after image): %s\n" % (k, j, kind, why, script, ";".join(r["out"])[:1500]),
                               "crash image (k=%d, j=%d, %s): %s" % (k, j, kind, why), sig=sig)
     ctx.extra["distribution"] = dist
+    ctx.extra["statistics_requests_compared"] = STATS_COMPARED[0]
     ctx.cov["rule"] = ("case = (writer program, crash point): programs with 1-3 FSR signals of any type, annotations, UTC, user data, omission; the backend write log is "
                        "captured by interposition; crash points = every k (complete writes) with j=0, every byte prefix j of in-place writes (header links, head tables), "
                        "j in {1,8,28,31,len/2,len-1} of appends, sampled to %d per program; the image is opened twice with the library; oracle: terminates without fault; "
